@@ -312,6 +312,7 @@ func RunFragment(rng *lib.Rng, tier string, dir string, sum *lib.Summary) {
 		} else {
 			accepted++
 			sum.DistinctNontrivial++
+			sum.Count("frag:accepted:" + strings.SplitN(origin, ":", 2)[0])
 			sum.Count("frag:outcome:interpreter:" + orOk(ci))
 			sum.Count("frag:outcome:vm:" + orOk(cv))
 		}
